@@ -227,6 +227,12 @@ def content(seed, n):
         return seed[4:].encode()
     if n == 0:
         return b""
+    if isinstance(seed, str) and seed.startswith("zero"):
+        return bytes(n)                               # preallocated / sparse file: nothing but zero bytes
+    if isinstance(seed, str) and seed.startswith("ztail:"):
+        # disk image with an unused tail: the last (partial) 16 KiB block and the block before it are zero bytes
+        keep = max(0, n - (n % 16384 or 16384) - 16384)
+        return random.Random(f"content/{seed}").randbytes(keep).translate(_NOZERO) + bytes(n - keep)
     return random.Random(f"content/{seed}").randbytes(n).translate(_NOZERO)
 
 
